@@ -22,6 +22,10 @@ Emits(FF_) ==
   IF kind = "laws" THEN Em("laws", "functor.laws", <<"C12">>, [F |-> FJson(FF_), f |-> Pack(f), g |-> Pack(g)])
   ELSE
   /\ Em("strict", "functor.map_arrow", <<"C12", "C05">>, [F |-> FJson(FF_), f |-> Pack(f)])
+  /\ (FF_.ops = <<>> /\ f.s = <<>> /\ f.t = <<>> => Em("strict", "functor.map_object", <<"C12">>, [F |-> FJson(FF_), w |-> f.w]))
+  \* the built-in identity functors, once per diagram
+  /\ ((\A o \in DOMAIN FF_.obj : FF_.obj[o] = <<>>) /\ (\A i \in 1 .. Len(FF_.ops) : FF_.ops[i].img = EmptyOH) =>
+        Em("strict", "functor.identity", <<"C12", "C05">>, [f |-> Pack(f)]) /\ Em("dyn", "laxf.identity", <<"C12">>, [f |-> LaxOf(f)]))
   /\ Em("dyn", "laxf.dyn_map_arrow", <<"C12">>, [F |-> FJson(FF_), f |-> LaxOf(f)])
   /\ Em("native", "laxf.try_define_map_arrow", <<"C13">>, [F |-> FJson(FF_), f |-> LaxOf(f)])
   /\ Em("native", "laxf.map_arrow_witness", <<"C13">>, [F |-> FJson(FF_), f |-> LaxOf(f)])
